@@ -152,7 +152,7 @@ theorem generated_shape :
     Gen.compressionOrder = [.pathOut, .collisionRename, .compress, .removeSource] ∧
     Gen.terminateOrder = [.close, .newPath, .mkdirs, .sameNameRename, .compression, .retention, .createFile] ∧
     Gen.writeOrder = [.lazyCreate, .reopen, .rotationTest, .terminate, .writeMessage] ∧
-    Gen.makedirsExistOk = true := by decide
+    Gen.makedirsExistOk = true ∧ Gen.createPathAbsolute = true := by decide
 
 /-- **never_holds_closed_file**: whatever fails – in particular `file.close()` itself – the sink never keeps
 a closed file object (`_close_file` forgets the object before closing it, generated order `Gen.closeOrder`). -/
